@@ -10,6 +10,7 @@ carries the relative time and date of the root slab it was taken from; scalar/ve
 reference date are the root's.
 -/
 import DarsiaProofs.ImageMeta
+import DarsiaProofs.ImageArr
 namespace Darsia.C02
 open Darsia Darsia.Im
 
@@ -125,6 +126,67 @@ theorem time_interval_keeps_stored_times (im im' : Img) (sl : PySlice) (h : im.t
     im'.slabs = Patch.sliceL im.slabs (sliceIdx im.slabs.length sl) ∧ im'.ref = im.ref ∧ im'.cs = im.cs :=
   timeInterval_fields im im' sl h
 
+/-! ### the data claim on ARRAYS (`DarsiaModel.ImageArr`): pixel arrays are functions from the raw numpy
+multi-index to a value tag; subregion / time_slice / time_interval / append / stack act on them by numpy's
+index arithmetic (axis positions counted as the code counts them: leading axes for the ROI, from the END
+for `[..., i]` / `[..., i, :]`, `axis = space_dim` for `np.stack`). -/
+
+/-- DATA BLOCK THEOREM. For every freshly constructed image (scalar or vector payload, single image or
+series) and EVERY program of extraction steps of any length that neither raises nor yields an empty image:
+entry (t, v, c) of the resulting pixel array is the root's entry (root time index of slab t, v + off, c),
+where `off` is the composed spatial offset of the placement invariant and the composed time map is read
+off the slabs — i.e. `(run program root).data idx = root.data (map idx)`. The tag on the right is
+written out: it names root array, root time index, root voxel and component. -/
+theorem extract_data_eq (rid : Nat) (cs : CS) (series scalar : Bool) (T C : Nat) (time : Option (List (Option Rat)))
+    (date : List (Option Int)) (root : ImgA) (h : mkRootA rid cs series scalar T C time date = .ok root)
+    (hcs : cs.ok) (hT : root.md.time.length = T) (hD : date.length = T)
+    (hc : ∀ k : Nat, root.md.time[k]? = some none → date[k]? = some none)
+    (steps : List Step) (im : ImgA) (hr : root.runOk steps = some im) :
+    ∃ off, Placed root.md im.md off ∧ root.md.runOk steps = some im.md ∧
+      ∀ (t : Nat) (sl : Slab), im.md.slabs[t]? = some sl → ∀ v : List Nat, v.length = cs.dim.toNat → ∀ c : Nat,
+        im.data t v c = root.data sl.t (List.zipWith (· + ·) v off) c ∧
+        im.data t v c = ⟨rid, if series then sl.t else 0, List.zipWith (· + ·) v off, if scalar then 0 else c⟩ := by
+  obtain ⟨hm, _⟩ := mkRootA_md rid cs series scalar T C time date root h
+  have hP0 := placed_root rid cs series scalar T time date root.md hm hcs hT hD hc
+  have hcsEq : root.md.cs = cs := by rw [mkRoot_fields rid cs series scalar T time date root.md hm]
+  have hD0 : DataInv root root (List.replicate cs.dim.toNat 0) :=
+    dataInv_root root _ (by rw [hcsEq]) (fun t sl hsl => (mkRoot_slab_t rid cs series scalar T time date root.md hm t sl hsl).1)
+  obtain ⟨off, hP, hDI, hmd⟩ := data_run root steps root im _ hP0 hD0 hr
+  refine ⟨off, hP, hmd, ?_⟩
+  intro t sl hsl v hv c
+  have e := hDI t sl hsl v (by rw [hcsEq]; exact hv) c
+  refine ⟨e, ?_⟩
+  rw [e]
+  exact root_data_tag rid cs series scalar T C time date root h sl.t _ c (by
+    rw [List.length_zipWith, hv, hP.offLen, hcsEq]; simp)
+
+/-- the same for any image that already satisfies the invariants (extraction from an extraction …). -/
+theorem extract_data_inv (root im im' : ImgA) (off : List Nat) (hP : Placed root.md im.md off)
+    (hD : DataInv root im off) (steps : List Step) (hr : im.runOk steps = some im') :
+    ∃ off', Placed root.md im'.md off' ∧ DataInv root im' off' :=
+  let ⟨o, a, b, _⟩ := data_run root steps im im' off hP hD hr
+  ⟨o, a, b⟩
+
+/-- `append` on arrays (`np.stack` of the time slabs of both images at `axis = space_dim`): slab `t` of the
+result is slab `t` of the receiver, or slab `t − T_a` of the appended image — entry by entry, for scalar and
+vector payloads, single images and series on either side. -/
+theorem append_data_eq (a b s : ImgA) (off : Option Rat) (h : a.append b off = .ok s) (t : Nat) (v : List Nat) (c : Nat)
+    (hv : v.length = a.md.cs.dim.toNat) (ht : t < a.slices.length + b.slices.length) :
+    s.data t v c = if t < a.slices.length then a.data t v c else b.data (t - a.slices.length) v c :=
+  append_data a b s off h t v c hv ht
+
+/-- `stack` of any number of single-time images then `time_slice(i)`: the pixel array of the result is the
+pixel array of image `i`, entry by entry. -/
+theorem stack_slice_data (imgs : List ImgA) (s s' : ImgA) (h : stackA imgs = .ok s) (d : Nat)
+    (hs : ∀ o ∈ imgs, o.md.series = false ∧ o.md.slabs.length = 1 ∧ o.md.cs.dim.toNat = d)
+    (i : Nat) (o : ImgA) (ho : imgs[i]? = some o) (h' : s.step (.tslice (i : Int)) = .ok s')
+    (t : Nat) (v : List Nat) (hv : v.length = d) (c : Nat) : s'.data t v c = o.data 0 v c := by
+  obtain ⟨j, hj, hd⟩ := tslice_data s s' (i : Int) h'
+  have := pyIndex_natCast _ _ _ hj
+  subst this
+  rw [hd t v c]
+  exact stackA_data imgs s h d hs v hv c j o ho
+
 /-! non-vacuity: dated images appended with offset 0 keep their stored times [0, 0] (the date
 differences would be [0, 60]); with no offset the times are derived from the dates. -/
 example : ((dated exCSa true (⟨0, 0, []⟩, 100)).append (dated exCSa true (⟨1, 0, []⟩, 160)) (some 0)).toOption.map (·.time) =
@@ -149,5 +211,11 @@ example : ((exRoot.toOption.bind fun r => r.runOk exProg).map fun im => im.slabs
     some [[[1, 2, 3], [1, 2, 3, 4]]] := by decide +kernel
 example : exRoot.toOption.map (fun r => (r.time, r.date.length)) = some ([some 0, some 10, some 25], 3) := by
   decide +kernel
+
+/-! non-vacuity: a vector-valued 2-D series; program sub → tinterval → tslice; entry (·, (1,2), 1) of the
+result is root entry (time 2, voxel (2,2), component 1). -/
+def exRootA : Except Err ImgA := mkRootA 7 exCS true false 3 2 none [some 0, some 10, some 25]
+example : ((exRootA.toOption.bind fun r => r.runOk [.sub [(some 1, none), (none, some (-1))], .tinterval (some 1, none), .tslice (-1)]).map
+    fun im => im.data 0 [1, 2] 1) = some ⟨7, 2, [2, 2], 1⟩ := by decide +kernel
 
 end Darsia.C02
